@@ -614,7 +614,7 @@ class Deriver:
         return self.d_seq(sp, depth)
 
     def length(self, depth, item_need):
-        if depth - 1 < item_need or self.budget < 8:
+        if depth - 1 < item_need or self.budget < 8 or self.max_len == 0:
             return 0
         r = self.rng.random()
         if r < 0.12:
@@ -969,17 +969,18 @@ def make_history(rng, g, second=None, sweep=False):
     if sweep:
         # every read-only entry point in turn, the main text (or a second one) parsed before and after each
         other = make_case(rng, g, max_depth=3, max_len=4) or main
+        empty = make_case(rng, g, max_depth=2, max_len=0) or other      # every container empty: "< >", "[ ]" ...
         g.pop("_p", None)
         steps = [default_call(main)]
         whats = LOOKS + ["error", "error"]
         rng.shuffle(whats)
         for i, what in enumerate(whats):
             steps.append(look(what=what))
-            steps.append(default_call(main if i % 3 != 2 else other, clean=rng.choice([True, True, "two"])))
-        # a call with debug=True (prints and logs every step of the parse), then the main text once more
-        dbg = default_call(other)
+            steps.append(default_call([main, empty, other][i % 3], clean=rng.choice([True, True, "two"])))
+        # a call with debug=True (prints and logs every step of the parse), then the other texts once more
+        dbg = default_call(main)
         dbg["debug"] = True
-        steps += [dbg, default_call(main)]
+        steps += [dbg, default_call(empty), default_call(other)]
         rej = make_case(rng, g, reject=True, max_depth=2, max_len=3)
         g.pop("_p", None)
         if rej:
